@@ -1889,6 +1889,32 @@ def unoption_or_chain(f):
     return f
 
 
+def pull_new_struct_fields(u, relpath, struct_name, known=(), key_types=('ExprId', 'WitnessId', 'usize', 'u32', 'bool')):
+    """R14: the fields of the real `struct NAME { .. }` the unit's cut does not know (`known` = kept + deliberately dropped) and whose type is a plain value or a std collection of
+    identifier types: each is carried into the unit's struct VERBATIM, so that a function under contract that consults a newly added bookkeeping field is judged through its
+    postcondition (the field's content is whatever the code put there) instead of being refused (`no field`).  Returns the field lines ('' if nothing / unsupported type)."""
+    from .extract import REPO, strip_comments
+    import os
+    try:
+        src = strip_comments(open(os.path.join(REPO, relpath)).read())
+    except OSError:
+        return ''
+    m = re.search(r'\bstruct\s+' + re.escape(struct_name) + r'\b[^{;]*\{', src)
+    if not m:
+        return ''
+    close = match_brace(src, m.end() - 1)
+    k = '|'.join(re.escape(t) for t in key_types)
+    ok_ty = re.compile(r'^(?:(?:%s)|(?:HashSet|BTreeSet|Vec|VecDeque)<(?:%s)>|(?:HashMap|BTreeMap)<(?:%s),\s*(?:%s)>)$' % (k, k, k, k))
+    out = []
+    for fm in re.finditer(r'(?:pub(?:\([a-z]+\))?\s+)?(\w+)\s*:\s*([^,\n]+(?:<[^\n]*>)?)\s*,', src[m.end():close]):
+        nm, ty = fm.group(1), fm.group(2).strip()
+        if nm in known or not ok_ty.match(ty):
+            continue
+        out.append(f'    pub {nm}: {ty},')
+        u.assumptions.append(f'R14: field {struct_name}.{nm}: {ty} (not in this unit\'s cut of the struct) carried verbatim; its content is unconstrained at function entry')
+    return '\n'.join(out)
+
+
 def pull_pure_type_helpers(u, relpath, type_name, known=(), rewrites=()):
     """R14: the methods of the inherent `impl TYPE { .. }` blocks of `relpath` that the unit does not know (`known`) and whose bodies are pure
     (no loop, no `&mut`, no `?`): each is emitted TWICE from the same text -- as `open spec fn NAME_spec` and as the executable `fn NAME` with the
